@@ -1,5 +1,6 @@
 import Cuke.Lemmas.Sched
 import Cuke.Model.SchedMon
+import Cuke.Lemmas.SchedSerial
 /-!
 # C07 — @serial scenarios run in isolation from every other scenario
 Model: `Cuke.getBatch` (serial preference, one at a time), `Cuke.isSerial`, the scheduler LTS, and the
@@ -113,5 +114,66 @@ theorem C07_full_false : ¬ C07_full := by
     is handed out while another scenario is in flight), so the known-finding matcher explains it -/
 theorem witness_is_known_pattern : knownC07 wcfg witness (isolation wcfg witness) = some "F-C07" := by
   decide +kernel
+
+
+/-! ## Whole runs: what IS true of the code
+
+`Good` = the log raised no disagreement of the classes K (slot accounting), I (program order of `execute`),
+Q (queue discipline). Lemmas/SchedSerial.lean. -/
+
+open Cuke.SchedSerial Cuke.SchedInv in
+/-- **An attempt dispatched into an empty runner runs alone until it ends.** Take any run log `pre`, then a
+    dispatch of the single entry `e` while nothing is running and no completion is waiting to be consumed, then
+    any continuation `mid` that does not contain the end of that attempt: if the LTS replays the whole log
+    without a K / I / Q disagreement, then at its end `e` is still the only attempt in flight — nothing else was
+    dispatched, however the parser, the clock and the other labels interleave. -/
+theorem lts_alone_until_end (c : SCfg) (pre mid : List Label) (n : Nat) (sl : Slots) (e : Entry)
+    (hb : (accept c pre).batch = [e]) (hr : (accept c pre).running = []) (he : (accept c pre).endedUnconsumed = 0)
+    (hno : ∀ l ∈ mid, ∀ f r t, l ≠ .endA e.id f r t)
+    (hg : Good (accept c (pre ++ [.disp n sl] ++ mid)) = true) :
+    (accept c (pre ++ [.disp n sl] ++ mid)).running = [e] ∧
+    (accept c (pre ++ [.disp n sl] ++ mid)).batch = [] := by
+  have hacc : accept c (pre ++ [.disp n sl] ++ mid) = mid.foldl (stepL c) (stepL c (accept c pre) (.disp n sl)) := by
+    simp [accept, List.foldl_append]
+  rw [hacc] at hg ⊢
+  have h0 := alone_after_dispatch c (accept c pre) n sl e hb hr he
+  have := alone_run c e mid _ h0 hno hg
+  exact ⟨this.1, this.2.2.2⟩
+
+open Cuke.SchedSerial Cuke.SchedInv in
+/-- … in particular no further dispatch is accepted before that attempt has ended -/
+theorem lts_no_dispatch_while_alone (c : SCfg) (pre mid : List Label) (n n' : Nat) (sl sl' : Slots) (e : Entry)
+    (hb : (accept c pre).batch = [e]) (hr : (accept c pre).running = []) (he : (accept c pre).endedUnconsumed = 0)
+    (hno : ∀ l ∈ mid, ∀ f r t, l ≠ .endA e.id f r t) :
+    Good (accept c (pre ++ [.disp n sl] ++ mid ++ [.disp n' sl'])) = false := by
+  cases hgood : Good (accept c (pre ++ [.disp n sl] ++ mid ++ [.disp n' sl'])) with
+  | false => rfl
+  | true =>
+    exfalso
+    have hacc : accept c (pre ++ [.disp n sl] ++ mid ++ [.disp n' sl']) =
+        stepL c (mid.foldl (stepL c) (stepL c (accept c pre) (.disp n sl))) (.disp n' sl') := by
+      simp [accept, List.foldl_append]
+    rw [hacc] at hgood
+    have hgm := good_step_mono c _ _ hgood
+    have h0 := alone_after_dispatch c (accept c pre) n sl e hb hr he
+    have hal := alone_run c e mid _ h0 hno hgm
+    have := wp_disp c _ n' sl' hal.2.2.1
+    rw [good_no_I _ hgood] at this
+    cases this
+
+/-! non-vacuity: a serial scenario handed out while nothing is in flight; the hypotheses of
+    `lts_alone_until_end` hold for this log with a non-empty continuation -/
+def scfg : SCfg :=
+  { builderConc := some (some 2), cliConc := none, builderFF := false, cliFF := false, builderRetries := none,
+    cliRetries := none, builderAfter := none, cliAfter := none, customWhich := false, durTable := [], feats := [f4] }
+def spre : List Label :=
+  [.hookTake, .tx .started, .pOk 4, .ins 0 [⟨12, 5, none, none⟩] [], .pEnd, .tx (.parsingFinished 1 0 1 0 0), .pFinish,
+   .get1 1 (some 2) 1 0, .get2 1 (.cont (some 2)) [12] false 0, .tx (.featStarted 4)]
+def smid : List Label := [.tx (.scen k5 none .started), .poll, .envMove, .tx (.scen k5 none (.step 0 .started))]
+
+example : (accept scfg spre).batch.map (fun e => (e.id, e.serial)) = [(12, true)] ∧ (accept scfg spre).running = [] ∧
+    (accept scfg spre).endedUnconsumed = 0 ∧
+    Cuke.SchedInv.Good (accept scfg (spre ++ [.disp 1 (.cont (some 1))] ++ smid)) = true ∧
+    (accept scfg (spre ++ [.disp 1 (.cont (some 1))] ++ smid)).running.map (·.id) = [12] := by decide +kernel
 
 end Cuke.C07
